@@ -27,8 +27,25 @@ absence of every key under that child — including present ones (replayed on th
 finding C11-default-leaf-ambiguity). `sound_excl_default_partial` is proved under exactly the
 guard `NoZeroEdge` that excludes it.
 
-Not carried by a theorem: serialisation of AccountProof/ContractVarProof, loading the value behind
-the 32-byte leaf (`GetAccountAndProof`), exercised on the real code by the c11 harness only.
+Compressed proofs are modelled at the byte level in `Aergo.Model.TrieCompress` (`compress` =
+`merkleProofCompressed`, `verifyInclusionC`/`verifyNonInclusionC` reading a bitmap): generation, completeness and
+soundness transfer by theorem (`compress_expand`, `complete_*_compressed`, `sound_incl_compressed`).
+
+The node's answers (`StateDB.GetAccountAndProof`, `GetVarAndProof` after fix cdf2eb39) are modelled there too
+(`assemble`, `getAccountProof`, `getVarProof`) together with what a light client does with them (`walletAccepts`):
+`account_proof_complete`, `var_proof_complete`, `wallet_sound`. SECOND FINDING carried by this file:
+before fix cdf2eb39 a contract without storage (nil storage root) was answered from the ACCOUNT trie
+(`foreign_trie_answer_rejected`: such an answer never verifies; found and replayed by the c11 harness, repaired).
+
+LENGTH PRECONDITIONS. Every soundness theorem assumes key = trie height bits, value = 32 bytes, audit-path elements
+32 bytes or `DefaultLeaf`. The Go verifiers check none of it and `common.Hasher` concatenates its arguments:
+`split_ambiguity` / `short_key_accepted` prove that `VerifyInclusion(ap, key[:31], key[31:] ++ value)` is accepted
+whenever `(key, value)` is (probed on the real code by the harness). So "a proof generated for one key/value never
+verifies for another" holds for claims of the right lengths only; the node's clients compute both as SHA-256 digests.
+
+Not carried by a theorem: protobuf serialisation of AccountProof/ContractVarProof/StateQueryProof, the name resolution
+and the loop of `ChainWorker.Receive(GetStateQuery)`, the content-addressed value store (hypothesis `Addressed`):
+exercised on the real code by the c11 harness (wallet-style oracle after a protobuf round trip).
 -/
 import Aergo.Lemmas.TrieCompress
 
@@ -616,6 +633,15 @@ example : verifyInclusionC ⟨fun _ => List.replicate 32 7, packBits⟩ 8
     (rootOf ⟨fun _ => List.replicate 32 7, packBits⟩ 8 (.leaf [true, false, true, false, true, false, true, false] (List.replicate 32 1)))
     (compress []).1 [true, false, true, false, true, false, true, false] (List.replicate 32 1) (compress []).2.1 (compress []).2.2
     = some true := by decide
+
+/-- The hypotheses of `short_key_accepted` are satisfiable (test: height 16, one key, boundary moved by one byte). -/
+example : verifyInclusion ⟨fun _ => List.replicate 32 7, packBits⟩ 16
+      (rootOf ⟨fun _ => List.replicate 32 7, packBits⟩ 16 (.leaf (List.replicate 16 true) (List.replicate 32 1)))
+      (sibHashes ⟨fun _ => List.replicate 32 7, packBits⟩ (merkleProof 16 [] (.leaf (List.replicate 16 true) (List.replicate 32 1)) (List.replicate 16 true)).ap)
+      ((List.replicate 16 true).take (8 * 1)) (packBits ((List.replicate 16 true).drop (8 * 1)) ++ List.replicate 32 1) = true ∧
+    Trie.get (.leaf (List.replicate 16 true) (List.replicate 32 1) : T Bytes) ((List.replicate 16 true).take (8 * 1)) = none :=
+  short_key_accepted _ (.leaf (List.replicate 16 true) (List.replicate 32 1)) (List.replicate 16 true) (List.replicate 32 1) 1
+    (by simp [Canon]) (by simp) (by simp [Trie.get]) (by omega) (by simp [merkleProof])
 
 /-- test: compress/expand on a concrete 10-element path (two bitmap bytes) -/
 example : compress [[1], defaultLeaf, [2], [3], defaultLeaf, defaultLeaf, [4], [5], [6], defaultLeaf]
